@@ -64,3 +64,105 @@ impl Writer for RecordingWriter {
         self.app(&value.to_be_bytes());
     }
 }
+
+/// A conforming `Writer` whose positions do not start at zero: it stands for the tail of a long
+/// stream that already holds `base` octets (a capture file, a ring buffer window). `len()` reports
+/// `base + written`, overwrites address absolute positions. Nothing in the trait says positions
+/// fit 16 or 32 bits.
+#[derive(Debug, Default)]
+pub struct OffsetWriter {
+    pub base: usize,
+    pub data: Vec<u8>,
+    pub events: Vec<WEvent>,
+}
+
+impl OffsetWriter {
+    pub fn new(base: usize) -> Self {
+        OffsetWriter { base, data: Vec::new(), events: Vec::new() }
+    }
+    fn app(&mut self, b: &[u8]) {
+        self.events.push(WEvent::Append { at: self.base + self.data.len(), n: b.len() });
+        self.data.extend_from_slice(b);
+    }
+}
+
+impl Writer for OffsetWriter {
+    fn is_empty(&self) -> bool {
+        self.base == 0 && self.data.is_empty()
+    }
+    fn len(&self) -> usize {
+        self.base + self.data.len()
+    }
+    fn write_bytes(&mut self, bytes: &[u8]) {
+        self.app(bytes);
+    }
+    fn write_bytes_at(&mut self, bytes: &[u8], offset: usize) {
+        self.events.push(WEvent::Overwrite { off: offset, n: bytes.len(), len_before: self.base + self.data.len() });
+        let ok = offset >= self.base && offset.checked_add(bytes.len()).map(|e| e <= self.base + self.data.len()).unwrap_or(false);
+        if !ok {
+            panic!("OffsetWriter: overwrite [{}, +{}) outside the window [{}, {})", offset, bytes.len(), self.base, self.base + self.data.len());
+        }
+        let o = offset - self.base;
+        self.data[o..o + bytes.len()].copy_from_slice(bytes);
+    }
+    fn write_u8(&mut self, value: u8) {
+        self.app(&[value]);
+    }
+    fn write_u16_be(&mut self, value: u16) {
+        self.app(&value.to_be_bytes());
+    }
+    fn write_u32_be(&mut self, value: u32) {
+        self.app(&value.to_be_bytes());
+    }
+    fn write_u64_be(&mut self, value: u64) {
+        self.app(&value.to_be_bytes());
+    }
+}
+
+/// A conforming `Writer` with a fixed capacity: the trait offers no error channel, so a full
+/// writer can only refuse by panicking (fault injection for append paths).
+#[derive(Debug, Default)]
+pub struct BoundedWriter {
+    pub cap: usize,
+    pub data: Vec<u8>,
+}
+
+impl BoundedWriter {
+    pub fn new(cap: usize) -> Self {
+        BoundedWriter { cap, data: Vec::new() }
+    }
+    fn app(&mut self, b: &[u8]) {
+        if self.data.len() + b.len() > self.cap {
+            panic!("BoundedWriter: out of room");
+        }
+        self.data.extend_from_slice(b);
+    }
+}
+
+impl Writer for BoundedWriter {
+    fn is_empty(&self) -> bool {
+        self.data.is_empty()
+    }
+    fn len(&self) -> usize {
+        self.data.len()
+    }
+    fn write_bytes(&mut self, bytes: &[u8]) {
+        self.app(bytes);
+    }
+    fn write_bytes_at(&mut self, bytes: &[u8], offset: usize) {
+        let e = offset.checked_add(bytes.len()).filter(|e| *e <= self.data.len()).expect("BoundedWriter: overwrite outside data");
+        self.data[offset..e].copy_from_slice(bytes);
+    }
+    fn write_u8(&mut self, value: u8) {
+        self.app(&[value]);
+    }
+    fn write_u16_be(&mut self, value: u16) {
+        self.app(&value.to_be_bytes());
+    }
+    fn write_u32_be(&mut self, value: u32) {
+        self.app(&value.to_be_bytes());
+    }
+    fn write_u64_be(&mut self, value: u64) {
+        self.app(&value.to_be_bytes());
+    }
+}
